@@ -106,6 +106,18 @@ func ruleRecKey(c *Ctx) {
 				}
 			}
 		})
+		// a predicate over two records (sameCall(first, next *Record)) matches records by identity just the same
+		var recParams []*ssa.Parameter
+		for _, prm := range f.Params {
+			if pt, ok := prm.Type().(*types.Pointer); ok && (namedIs(pt.Elem(), "Record") || namedIs(pt.Elem(), "Entry")) {
+				recParams = append(recParams, prm)
+			}
+		}
+		if len(recParams) >= 2 {
+			for _, prm := range recParams {
+				elems[prm] = true
+			}
+		}
 		if len(elems) == 0 {
 			continue
 		}
